@@ -118,7 +118,7 @@ class Roles:
             return None
         return path
 
-    def big_match_fn(self, role, root, min_arms=100):
+    def big_match_fn(self, role, root, min_arms=60):
         if role in self._cache:
             return self._cache[role]
         if self.api(root) is None:
@@ -163,7 +163,7 @@ class Roles:
                     e = strip(n["e"])
                     if e.get("k") == "fn":
                         cands.append(norm_path(e.get("resolved") or e["path"]))
-        cands = [c for c in cands if c in self.f.fns and opcode_matches(self.f.fns[c], 100)]
+        cands = [c for c in cands if c in self.f.fns and opcode_matches(self.f.fns[c], 60)]
         r = self._one(role, cands)
         self._cache[role] = r
         return r
